@@ -149,7 +149,14 @@ func c01Size(rng *fw.Rand, v int, margin int) (int, int) {
 		k := 33 + rng.Intn(38)
 		return nat*k + rng.Intn(k), nat*k + rng.Intn(k)
 	}
-	switch rng.Intn(6) {
+	switch rng.Intn(8) {
+	case 6, 7:
+		// one axis left to the writer (0) or below the symbol, the other several symbols long
+		long, short := nat*(2+rng.Intn(4))+rng.Intn(nat), []int{0, 0, 1, rng.Intn(nat)}[rng.Intn(4)]
+		if rng.Bool() {
+			return long, short
+		}
+		return short, long
 	case 0:
 		return 0, 0
 	case 1:
